@@ -1412,6 +1412,14 @@ func (p *Path) castPointer(v Value, elem types.Type) Value {
 			return Ptr{c}
 		}
 	}
+	// a narrower scalar at the same address: on the little-endian targets handled here (amd64, 386) it is the
+	// low-order bytes of the wider one (allowed by the unsafe rules: the new type is no larger than the old)
+	if !isAggregate(c.typ) && !isAggregate(elem) && p.eng.isPlainScalar(c.typ) && p.eng.isPlainScalar(elem) &&
+		p.eng.sizeof(elem) < p.eng.sizeof(c.typ) && !isFloat(elem) && !isFloat(c.typ) && c.view == nil {
+		if _, ok := c.val.(*Term); ok {
+			return Ptr{&Cell{typ: elem, parent: c.parent, idx: c.idx, obj: c.obj, view: c}}
+		}
+	}
 	// identical flattened layout (struct puns)
 	if p.eng.layoutCompatible(c.typ, elem) {
 		p.noteCast(c, elem, true)
